@@ -3,6 +3,7 @@ package main
 import (
 	"fmt"
 	"go/token"
+	"go/types"
 	"strings"
 
 	"golang.org/x/tools/go/ssa"
@@ -172,7 +173,21 @@ func (c *Ctx) heldOrUnpublished(in ssa.Instruction, ref lockRef, depth int) (boo
 	if len(sites) == 0 {
 		return false, "lock " + c.lockString(ref) + " not held in " + c.fnName(fn) + " and no static caller"
 	}
+	checked := 0
+	defer func() { _ = checked }()
+	inScope := 0
 	for _, s := range sites {
+		if c.lockScopeSkip == nil || !c.lockScopeSkip(s.Parent()) {
+			inScope++
+		}
+	}
+	if inScope == 0 && c.dynamicallyCallable(fn) {
+		return false, "lock " + c.lockString(ref) + " not held in " + c.fnName(fn) + ", which is called through an interface (no in-scope static caller holds it)"
+	}
+	for _, s := range sites {
+		if c.lockScopeSkip != nil && c.lockScopeSkip(s.Parent()) {
+			continue // caller outside the rule's scope (stated in the rule's explanation)
+		}
 		args := s.Common().Args
 		if pi >= len(args) {
 			return false, "cannot map parameter"
@@ -519,4 +534,25 @@ func (c *Ctx) onlyBeforeStart(in ssa.Instruction, depth int) bool {
 		}
 	}
 	return true
+}
+
+// dynamicallyCallable: some interface-method call site in the module can dispatch to fn.
+func (c *Ctx) dynamicallyCallable(fn *ssa.Function) bool {
+	if fn.Signature.Recv() == nil {
+		return false
+	}
+	rt := fn.Signature.Recv().Type()
+	found := false
+	c.eachCall(func(_ *ssa.Function, ci ssa.CallInstruction) {
+		cc := ci.Common()
+		if found || !cc.IsInvoke() || cc.Method.Name() != fn.Name() {
+			return
+		}
+		if it, ok := cc.Value.Type().Underlying().(*types.Interface); ok {
+			if types.Implements(rt, it) || types.Implements(types.NewPointer(rt), it) {
+				found = true
+			}
+		}
+	})
+	return found
 }
